@@ -34,8 +34,8 @@ def run(tier, seed):
     c = ec.consts({1, 2, 3, 4, 5}, A, 10 if q else 16, durs=(0, 1, 2))
     hs = ec.generate(chk, "C11_gen", c, simulate=40 if q else 400, depth=500, seed=seed, invariants=ec.INV_LIST + ["Emit"],
                      max_hist=300 if q else 6000)
-    configs = [dict(backend="epoll"), dict(backend="poll", tick_ns=1000000)] if q else \
-              [dict(backend="epoll"), dict(backend="epoll", changelist=1), dict(backend="poll", tick_ns=1000000),
+    configs = [dict(backend="epoll"), dict(backend="epoll", threads=1), dict(backend="poll", tick_ns=1000000)] if q else \
+              [dict(backend="epoll"), dict(backend="epoll", threads=1), dict(backend="epoll", changelist=1), dict(backend="poll", tick_ns=1000000),
                dict(backend="select"), dict(backend="epoll", signalfd=1), dict(backend="poll", tick_ns=1000000, signalfd=1)]
     scen, exp = [], []
     for h in hs:
@@ -54,8 +54,9 @@ def run(tier, seed):
     chk.sample({"history_with_fork": scen[0]})
     hist = {}
     for cfgx in configs:
-        dc = ec.drv_cfg(c, cfgx.get("tick_ns", 1000), cfgx["backend"], **{k: v for k, v in cfgx.items() if k not in ("backend", "tick_ns")})
-        outs = vkit.run_driver(exe, [{"cfg": dc, "h": s} for s in scen])
+        dc = ec.drv_cfg(c, cfgx.get("tick_ns", 1000), cfgx["backend"], **{k: v for k, v in cfgx.items() if k not in ("backend", "tick_ns", "threads")})
+        # with threading enabled the base owns a notify fd registered in the (shared) epoll instance
+        outs = vkit.run_driver(exe, [{"cfg": dc, "h": s} for s in scen], env={"VERIF_THREADS": "1"} if cfgx.get("threads") else None)
         chk.cov["traces_validated_against_impl"] += 2 * len(scen)
         nfail = 0
         for i, (o, (parent, child)) in enumerate(zip(outs, exp)):
